@@ -150,7 +150,7 @@ where
 }
 
 pub fn case(cx: &mut Cx, rng: &mut Rng) -> R {
-    let nmax = if cx.small { 6 } else if rng.chance(1, 10) { 13 } else { 8 };
+    let nmax = if cx.small { 6 } else if rng.chance(1, if cx.thorough { 40 } else { 150 }) { 40 } else if rng.chance(1, 10) { 13 } else { 8 };
     // dominators: directed flow graphs (reducible and irreducible), any root
     let mut o = GenOpts::new(nmax).directed(true);
     if rng.chance(1, 5) {
